@@ -190,6 +190,17 @@ def cases(tier):
                     for box in itertools.product(*boxes1):
                         out.append({"config": {"family": name, "d": d, "level": list(lv), "a": a, "b": b,
                                                "start": [x[0] for x in box], "end": [x[1] for x in box]}})
+    # d = 3 (low levels): formulas that are only right in one and two dimensions
+    a3, b3 = [0.0, -1.0, 2.0], [1.0, 3.0, 4.0]
+    for name in ("trapezoidal", "simpson", "clenshaw_curtis", "gauss_legendre", "leja", "lagrange2", "bspline1"):
+        L3 = 2 if name in ("trapezoidal", "simpson") else 1
+        boxes1 = [sub_boxes_1d(a3[k], b3[k], 1) for k in range(3)]
+        for lv in itertools.product(range(0, L3 + 1), repeat=3):
+            if tier == "quick" and name not in ("trapezoidal",) and sorted(lv) != list(lv):
+                continue                     # quick: ascending level vectors only for the other families
+            for box in itertools.product(*boxes1):
+                out.append({"config": {"family": name, "d": 3, "level": list(lv), "a": a3, "b": b3,
+                                       "start": [x[0] for x in box], "end": [x[1] for x in box]}})
     # a domain far from the origin (the distance of an inner sub-box from the global boundary is tiny relative to the coordinates):
     # the families with a boundary-off contract of the statement
     far = {1: ([1048576.0], [1048577.0]), 2: ([1048576.0, 0.0], [1048577.0, 1.0])}
